@@ -4,9 +4,45 @@ open NutilsVerif NutilsVerif.Proto NutilsVerif.C15
 def rejName : Reject → String
   | .values => "values" | .rowptr => "rowptr" | .colidx => "colidx" | .order => "order"
 
+def cerrName : CErr → String
+  | .bounds => "bounds" | .notMonotone => "monotone"
+
+def berrName : BErr → String
+  | .rowSizes => "rowsizes" | .dtype => "dtype" | .colSizes => "colsizes" | .noBlocks => "noblocks"
+  | .blockRowptr => "blockrowptr" | .blockColidx => "blockcolidx"
+
+def b01 (b : Bool) : String := if b then "1" else "0"
+
 def posNodup (m : CSR) : Bool :=
   let ps := (entries m).map fun e => (e.1, e.2.1)
   ps.eraseDups.length == ps.length
+
+def showAsm : Except Reject Dense → String
+  | .ok d => s!"accept:{showRows d}"
+  | .error e => s!"reject:{rejName e}"
+
+def showComp : Except CErr (List Int) → String
+  | .ok c => s!"ok:{showInts c}"
+  | .error e => s!"err:{cerrName e}"
+
+/-- dense rows `a b;c d`; the empty string is the 0-row matrix, `;` separates (possibly empty) rows -/
+def parseDense (s : String) (nrows : Nat) : Option Dense :=
+  if nrows == 0 then (if s.trimAscii.toString == "" then some [] else none)
+  else
+    match (s.splitOn ";").mapM parseInts with
+    | some d => if d.length == nrows then some d else none
+    | none => none
+
+def parseBlock (s : String) : Option Block :=
+  match (s.splitOn ",").map (fun t => t.trimAscii.toString) with
+  | [v, rp, ci, nc, dt] =>
+    match parseInts v, parseInts rp, parseInts ci, nc.toNat?, dt.toNat? with
+    | some v, some rp, some ci, some nc, some dt => some { values := v, rowptr := rp, colidx := ci, ncols := nc, dt := dt }
+    | _, _, _, _, _ => none
+  | _ => none
+
+def parseBlocks (s : String) : Option (List (List Block)) :=
+  (s.splitOn "#").mapM fun row => (row.splitOn "/").mapM parseBlock
 
 def handle (line : String) : String :=
   match fields line with
@@ -14,26 +50,51 @@ def handle (line : String) : String :=
     match parseInts v, parseInts rp, parseInts ci, nc.toNat? with
     | some v, some rp, some ci, some nc =>
       let m : CSR := { values := v, rowptr := rp, colidx := ci, ncols := nc }
-      let valid := if validB m then "1" else "0"
+      let valid := b01 (validB m)
       match assemble m with
-      | .ok d => s!"accept|valid={valid}|nodup={if posNodup m then 1 else 0}|{showRows d}|{showRows (denseSum m)}"
+      | .ok d => s!"accept|valid={valid}|nodup={b01 (posNodup m)}|{showRows d}|{showRows (denseSum m)}|{showInts (csrDiagonal m)}|{showInts (dDiag (denseSum m))}"
       | .error e => s!"reject|valid={valid}|{rejName e}"
     | _, _, _, _ => "bad-request"
   | ["compress", idx, n] =>
     match parseInts idx, n.toNat? with
-    | some idx, some n =>
-      match compressIndices idx n with
-      | .ok c => s!"ok|{showInts c}|{if c == searchsortedAll idx n then "spec-agrees" else "spec-differs"}"
-      | .error .bounds => "err|bounds"
-      | .error .notMonotone => "err|monotone"
+    | some idx, some n => s!"{showComp (compressIndices idx n)}|{showComp (compressSpec idx n)}"
     | _, _ => "bad-request"
-  | ["export", rows, nc] =>
-    match (rows.splitOn ";").mapM parseInts, nc.toNat? with
-    | some d, some nc =>
-      let d := if rows.trimAscii.toString == "" then [] else d
-      let m := exportCSR d nc
-      s!"{showInts m.values}|{showInts m.colidx}|{showInts m.rowptr}"
-    | _, _ => "bad-request"
+  | ["coo", v, ri, nr, ci, nc] =>
+    match parseInts v, parseInts ri, nr.toNat?, parseInts ci, nc.toNat? with
+    | some v, some ri, some nr, some ci, some nc =>
+      let valid := b01 (cooValidB v ri nr ci nc)
+      let spec := showRows (denseSum { values := v, rowptr := searchsortedAll ri nr, colidx := ci, ncols := nc })
+      match assembleCOO v ri nr ci nc with
+      | .valueError e => s!"valueerror|valid={valid}|{cerrName e}"
+      | .reject r => s!"reject|valid={valid}|{rejName r}"
+      | .ok d => s!"accept|valid={valid}|{showRows d}|{spec}"
+    | _, _, _, _, _ => "bad-request"
+  | ["export", rows, nr, nc, tol] =>
+    match nr.toNat?, nc.toNat?, tol.toNat? with
+    | some nr, some nc, some tol =>
+      match parseDense rows nr with
+      | some d =>
+        if d.all (·.length == nc) then
+          let m := exportCSR d nc
+          let coo := exportCOO d
+          s!"{showInts m.values}|{showInts m.colidx}|{showInts m.rowptr}|{showNats (coo.map (·.1))}|{showInts (csrDiagonal m)}|{showInts (dDiag d)}|{"".intercalate ((cooRowsupp coo nr tol).map b01)}|{"".intercalate ((dRowsupp d tol).map b01)}|{showAsm (assemble m)}"
+        else "bad-request"
+      | none => "bad-request"
+    | _, _, _ => "bad-request"
+  | ["block", bs] =>
+    match parseBlocks bs with
+    | some blocks =>
+      let ok := blocksOK blocks
+      let spec := blockMerge blocks
+      let specS := s!"ok={b01 ok}|{showInts spec.values};{showInts spec.rowptr};{showInts spec.colidx};{spec.ncols}|{showRows (blockDense blocks)}"
+      match blockMergeCode blocks with
+      | .error e => s!"err|{berrName e}|{specS}"
+      | .ok (m, any) =>
+        let res := match assembleBlock blocks with
+          | .ok r => showAsm r
+          | .error e => s!"err:{berrName e}"
+        s!"merged|any={b01 any}|{showInts m.values};{showInts m.rowptr};{showInts m.colidx};{m.ncols}|{res}|agrees={b01 (m == spec)}|{specS}"
+    | none => "bad-request"
   | _ => "bad-request"
 
 def main : IO Unit := serve handle
